@@ -58,10 +58,13 @@ class MuckMonitor:
         live = [not f for f in folded]
         if sum(live) < 2:
             return
-        tn = ctx.cfg['hand_types']
+        tn = ctx.cfg['hand_types'] if ctx.cfg['game'] == 'custom' else [t.__name__ for t in st.hand_types]
+        strength = P.tiny_strength
+        if ctx.job.get('real'):
+            from .c02 import real_strength as strength
         nb = st.board_count
         boards = [[repr(c) for c in st.get_board_cards(b)] for b in range(nb)]
-        hands = [[[P.tiny_strength(holes[i] + boards[b], t) for t in tn] for b in range(nb)] if live[i]
+        hands = [[[strength(holes[i] + boards[b], t) for t in tn] for b in range(nb)] if live[i]
                  else [[None] * len(tn)] * nb for i in range(n)]
         exp, info = P.award(n, acc['contrib'], acc['pooled'], live, hands, nb, len(tn), st.divmod,
                             lambda a: st.rake(a, st))
@@ -127,6 +130,18 @@ def jobs(tier, seed):
                 out.append({'family': f'2hole-{mode}', 'cfg': C.custom(stacks, two_hole, hand_types=('KuhnAny', 'JQLow'), antes=1,
                                                                           autos=manual, plan=plan, mode=mode),
                             'opts': {'runouts': (None,), 'show_players': True}})
+    # three streets, two boards, cash: an all-in after the first board street with run-outs - boards that share their first
+    # card pair-wise (index arithmetic of run-outs x boards) and a hand that wins on one of the later boards only
+    EIGHT = ['Js', 'Jh', 'Qs', 'Qh', 'Ks', 'Kh', 'As', 'Ah']
+    THREE_ST = [(False, (False,), 0, False, 'POSITION', 1, None), (False, (), 1, False, 'POSITION', 1, None),
+                (False, (), 1, False, 'POSITION', 1, None)]
+    no_runout_auto = [a for a in manual if a != 'RUNOUT_COUNT_SELECTION'] + ['HOLE_CARDS_SHOWING_OR_MUCKING']
+    plans = list(permutations(EIGHT, 8))
+    for plan in plans[::1 if th else 16]:
+        out.append({'family': '3street-2p-2b-cash-runouts-after-first-board',
+                    'cfg': C.custom((3, 3), THREE_ST, deck=EIGHT, hand_types=('TwoCardAny',), antes=1, boards=2, mode='cash',
+                                    autos=no_runout_auto, plan=list(plan)),
+                    'opts': {'runouts': (None, 2), 'raises': 'minmax', 'fold': False}, 'dev_bound': 3})
     for j in out:
         j.setdefault('state_cap', 200000)
         j.setdefault('time_cap', 600)
